@@ -53,7 +53,9 @@ var suites = map[string]Suite{}
 
 func (r *Result) add(f Finding) {
 	r.FindingsTotal++
-	if r.sigCount == nil { r.sigCount = map[string]int{} }
+	if r.sigCount == nil {
+		r.sigCount = map[string]int{}
+	}
 	r.sigCount[f.Sig]++
 	if r.sigCount[f.Sig] <= 5 && len(r.Findings) < 300 {
 		r.Findings = append(r.Findings, f)
